@@ -8,6 +8,7 @@
 
    Everything a query configures is a Section variable, so theorems quantify over it:
      C, clt, cadd, czero      the cost type with f64's strict comparison and addition
+     cfloor                   Cost::enforce_strictly_positive (the floor inside EdgeTraversal::total_cost)
      St                       the state vector
      frontier                 FrontierModel::valid_frontier        (edge, state, previous edge)
      traverse                 Direction::perform_edge_traversal    -> (access cost, traversal cost, result state)
@@ -52,10 +53,12 @@ Section Search.
   Variable clt : C -> C -> bool.
   Variable cadd : C -> C -> C.
   Variable czero : C.
+  Variable cfloor : C -> C.      (* Cost::enforce_strictly_positive: the floor applied by EdgeTraversal::total_cost *)
 
   (* EdgeTraversal *)
   Record etrav := mkEt { et_edge : nat; et_access : C; et_trav : C; et_state : St }.
-  Definition et_total (t : etrav) : C := cadd (et_access t) (et_trav t).
+  (* EdgeTraversal::total_cost (as of /repo 693929c): the positive floor is enforced on the sum too *)
+  Definition et_total (t : etrav) : C := cfloor (cadd (et_access t) (et_trav t)).
   (* SearchTreeBranch *)
   Record branch := mkBranch { b_term : nat; b_et : etrav }.
 
@@ -183,6 +186,8 @@ Section Search.
   (* run_a_star: (tree, iterations) *)
   Definition run_a_star (fuel : nat) (d : dir) (source : nat) (target : option nat)
     : res (gmap nat branch * nat) :=
+    (* /repo e7c3cbc: a source vertex that is not in the graph is an error, with or without a target *)
+    if negb (Nat.ltb source (nverts g)) then Err "graph: unknown vertex" else
     if (match target with Some t => Nat.eqb t source | None => false end) then Ok (∅, 0)
     else
       do init <- init_state;
@@ -192,6 +197,7 @@ Section Search.
 
   (* the full final search state, for invariants and for printing labels *)
   Definition run_a_star_state (fuel : nat) (d : dir) (source : nat) (target : option nat) : res sstate :=
+    if negb (Nat.ltb source (nverts g)) then Err "graph: unknown vertex" else
     do init <- init_state;
     do h0 <- match target with None => Ok czero | Some t => estimate source t init end;
     run_loop fuel d source target init (mkS [(source, h0)] {[source := czero]} ∅ 0).
@@ -227,43 +233,52 @@ Section Search.
     | Some t => do route <- vertex_oriented_route source t tree; Ok (mkR [tree] [route] it)
     end.
 
-  (* search_algorithm.rs::run_edge_oriented, generic in the vertex-oriented algorithm [alg] *)
+  (* search_algorithm.rs::run_edge_oriented (as of /repo 393b35c), generic in the vertex-oriented algorithm [alg].
+     The vertex roles of the two query edges follow the search direction [d]:
+       a = Direction::terminal_vertex_id (where the search enters the edge), b = tree_key_vertex_id. *)
   Section EdgeOriented.
-    Variable alg : nat -> option nat -> res sresult.       (* run_vertex_oriented of the algorithm *)
-    Variable fwd_traverse : nat -> option nat -> St -> res (C * C * St).  (* EdgeTraversal::forward_traversal *)
+    Variable d : dir.
+    Variable alg : nat -> option nat -> res sresult.       (* run_vertex_oriented of the algorithm, direction d *)
 
     Definition run_edge_oriented (source : nat) (target : option nat) : res sresult :=
       match get_edge g source with
       | None => Err "graph: unknown edge"
       | Some e1 =>
+          let a1 := term_vertex d e1 in
+          let b1 := key_vertex d e1 in
           do init <- init_state;
           let src_et := mkEt source czero czero init in
           match target with
           | None =>
-              do r <- alg (edst e1) None;
+              do r <- alg b1 None;
               let graft (t : gmap nat branch) :=
-                match t !! edst e1, t !! esrc e1 with
-                | None, None => <[edst e1 := mkBranch (esrc e1) src_et]> t
-                | _, _ => t
-                end in
+                if Nat.eqb a1 b1 then t
+                else match t !! b1, t !! a1 with
+                     | None, None => <[b1 := mkBranch a1 src_et]> t
+                     | _, _ => t
+                     end in
               Ok (mkR (map graft (r_trees r)) (map (fun rt => src_et :: rt) (r_routes r)) (S (r_iters r)))
           | Some te =>
               match get_edge g te with
               | None => Err "graph: unknown edge"
               | Some e2 =>
+                  let a2 := term_vertex d e2 in
+                  let b2 := key_vertex d e2 in
                   if Nat.eqb source te then Ok (mkR [] [] 0)
-                  else if Nat.eqb (edst e1) (esrc e2) then
+                  else if Nat.eqb b1 a2 then
                     do init2 <- init_state;
-                    do r1 <- fwd_traverse source None init2;
-                    let '(a1, t1, s1) := r1 in
-                    do r2 <- fwd_traverse te (Some source) s1;
-                    let '(a2, t2, s2) := r2 in
-                    let et1 := mkEt source a1 t1 s1 in
-                    let et2 := mkEt te a2 t2 s2 in
-                    Ok (mkR [ <[edst e1 := mkBranch (esrc e1) et1]> {[edst e2 := mkBranch (esrc e2) et2]} ]
-                            [[et1; et2]] 1)
+                    do r1 <- traverse d source None init2;
+                    let '(ac1, tc1, s1) := r1 in
+                    do r2 <- traverse d te (Some source) s1;
+                    let '(ac2, tc2, s2) := r2 in
+                    let et1 := mkEt source ac1 tc1 s1 in
+                    let et2 := mkEt te ac2 tc2 s2 in
+                    let tr0 : gmap nat branch := if Nat.eqb b1 a1 then ∅ else {[b1 := mkBranch a1 et1]} in
+                    let tr1 := if negb (Nat.eqb b2 a1) && negb (Nat.eqb b2 b1)
+                               then <[b2 := mkBranch a2 et2]> tr0 else tr0 in
+                    Ok (mkR [tr1] [[et1; et2]] 1)
                   else
-                    do r <- alg (edst e1) (Some (esrc e2));
+                    do r <- alg b1 (Some a2);
                     if Nat.eqb (List.length (r_trees r)) 0 then Err "nopath"
                     else
                       do routes <- (fix go (rs : list (list etrav)) : res (list (list etrav)) :=
